@@ -6,6 +6,43 @@ import wsprops
 NEEDS = ('rq', 'rqmc')
 
 
+def setid_case(task):
+    """an ordinary user (root is exempt): a file with a set-user-ID / set-group-ID bit keeps it through a push, and so does its backup"""
+    import os
+    import rawcases as rc
+    import ws
+    import wsweep
+    mode, threads, backup, fail_behind = task
+    root = os.path.join(wsweep.wdir(), 'ws')
+    files = {'f': (rc.lines(b'f'), mode), 'g': (rc.lines(b'g'), 0o644)}
+    patches = {'p0.patch': rc.mod(b'f', b'f', 2, b'F2'), 'p1.patch': rc.mod(b'f', b'f', 4, b'F4')}
+    lines = ['p0.patch', 'p1.patch']
+    if fail_behind:
+        patches['p2.patch'] = rc.mod(b'g', b'g', 2, b'X', bad=True)
+        lines.append('p2.patch')
+    ws.make_ws(root, files, patches, lines)
+    for cur, dirs, fs in os.walk(root):
+        for n in [''] + dirs + fs:
+            os.chown(os.path.join(cur, n), 65534, 65534)
+    os.chmod(os.path.join(root, 'f'), mode)   # (chown clears the bits)
+    o = ws.run_rq(root, ['-a', '-q', '--backup', backup], threads=threads, as_nobody=True)
+    snap = ws.snapshot(root)
+    out = {'evals': 1, 'nontrivial': 1, 'violations': [], 'outcomes': {'setid:exit-' + o.cls: 1}}
+    tags = wsweep.cls({'set-id-bit-as-ordinary-user', 'threads>1' if threads > 1 else 'threads=1', 'backup=' + backup})
+    w = lambda extra: dict({'kind': 'cli', 'files': {k: [common.b2s(v[0]), v[1]] for k, v in files.items()}, 'patches': {k: common.b2s(v) for k, v in patches.items()}, 'series': lines,
+                            'args': ['-a', '-q', '--backup', backup], 'threads': threads, 'series_desc': 'run as uid 65534, f has mode %o' % mode}, **extra)
+    if o.cls != ('1' if fail_behind else '0'):
+        out['violations'].append((tags, 'exit-status' if o.cls in ('0', '1') else o.cls, w({'expected': '1' if fail_behind else '0', 'observed': o.cls, 'stderr': common.b2s(o.err[-300:])})))
+        return out
+    want = {'f': mode}
+    if backup == 'always':
+        want.update({'.pc/p0.patch/f': mode, '.pc/p1.patch/f': mode})
+    got = {p: (snap[p][2] if p in snap else None) for p in want}
+    if got != want:
+        out['violations'].append((tags, 'backup-files' if got.get('f') == mode else 'mode-of-the-patched-file', w({'expected': {k: oct(v) for k, v in want.items()}, 'observed': {k: (oct(v) if v is not None else None) for k, v in got.items()}})))
+    return out
+
+
 def run(tier, seed):
     res = common.Result('model_checking')
     m0 = tq.initial()
@@ -31,6 +68,15 @@ def run(tier, seed):
     multi = [s for s in uniq if len(s) >= 2]
     pc = [{'backup': 'always', 'backup_count': cnt, 'threads': t, 'quiet': True, 'prior': j} for cnt in ('all', 1) for t in ((1, 2) if tier != 'quick' else (2,)) for j in (1, 2)]
     wsprops.sweep('C08', res, m0, [s for s in multi if len(s) >= 2], pc, 'sweep_with_prior_state')
+    import shutil
+    import wsweep
+    if shutil.which('setpriv'):
+        acc = wsweep.Acc(res)
+        for r in wsweep.pmap(setid_case, [(m, t, b, fb) for m in (0o4755, 0o2755, 0o6750, 0o755) for t in (1, 2) for b in ('always', 'never') for fb in (False, True)]):
+            acc.add(r)
+        acc.finish('set_id_bits_as_ordinary_user')
+        res.coverage['set_id_bits_as_ordinary_user']['rule'] = ('the push runs as uid/gid 65534 on a workspace it owns; f has mode 4755 / 2755 / 6750 / 755 and is changed by two patches (a third one behind them '
+                                                                'fails or not) x threads {1,2} x backups on/off: f and both backups of f carry the mode f had')
     cov = res.coverage
     cov['series'] = len(uniq)
     cov['configs'] = len(cfgs) + len(pc)
